@@ -41,6 +41,10 @@ CHECKS = {
    technique="bounded exhaustive differential exploration: every operation sequence up to depth d over small alphabets, executed on the real compio code in lock-step against synchronous OS calls, on the io_uring driver and on the polling driver (thread-pool fallback)",
    text="Every sequence of depth <= 2-3 (quick) / 3-4 (thorough) over positional and vectored file I/O (5 offsets relative to EOF, 3 write lengths, 4 buffer shapes, 4 vectored layouts x 3 fill states, set_len, sync, metadata), all 64 OpenOptions subsets, anonymous pipes (depth 4 / 6) and the directory / whole-file helpers is run from a fresh state in three worlds: OS reference (std::fs + libc), compio on io_uring, compio on polling. After every operation results (value, ErrorKind, errno), returned buffers (length, capacity, all bytes up to capacity), metadata and the externally visible state (tree, file bytes, mode, nlink, pipe content) must be identical.",
    note="Trusted: kernel + std/libc as reference; tmpfs ($TMPDIR=/dev/shm) so sync_* only exercises the result path; a watchdog turns a stuck operation into a Hang observation; wall guard 38 s quick / 900 s thorough (cap => exhaustive=false). Not covered: overlapping operations and cancellation (C01/C02/C05), managed-buffer reads, splice, permission errors, transfers > 4 bytes. Known findings: offset u64::MAX on io_uring, zero-capacity pipe read on polling."),
+ "C09": dict(engine="e_c09", design="§2/C09",
+   technique="explicit-state BFS to a fixpoint with a virtual clock over the transplanted timer source (time/{mod,runtime,future}.rs, std::time::Instant re-bound), every transition replayed on the real objects; plus real-time replay of all maximal traces of a reduced space on the real Runtime",
+   text="All reachable canonical states of {real TimerRuntime + real Sleep/Timeout/Interval futures + modelled run loop} under Sleep(d in -1..3)/Timeout/Tick/Poll (two wakers)/Drop/Busy/Loop(early|exact|late) are explored to the fixpoint for <= 3 timers alive and clock <= 6 (quick) / 10 (thorough) ticks, and <= 4 alive for sleeps and interval only. Invariants on every transition: never Ready before the deadline; Ready and the registered waker invoked once a wake() ran at or after the deadline; min_timeout never exceeds the nearest pending deadline; no wheel entry without a live owner; Timeout gives Ok iff the inner future was ready at that poll, Elapsed only at/after the deadline; interval ticks equal start + k*period. Conformance: 538 (quick) / 6890 (thorough) maximal traces replayed on the real runtime with 1 tick = 3 ms (never-early exact; fires-within-slack with a tolerance).",
+   note="Trusted: the virtual Instant, the 20-line Runtime stand-in, the run-loop model Loop(delta) (read from lib.rs, not transplanted), the canonical-state abstraction (argued in model.rs; a wrong merge can only lose coverage). The real-time 'always fires' part uses a 60 ms slack and is a liveness check with a tolerance. Not covered: driver timeout rounding, > 4 simultaneous timers, Instant overflow."),
 }
 
 NOT_YET = {
@@ -89,6 +93,7 @@ def main():
         "engines": [
             {"name": "e3loom", "path": "/verif/e3loom", "serves_properties": ["C03", "C04", "C06", "C17"], "kind_free_text": "loom (bounded-preemption exhaustive interleaving exploration) over the repository's own source: compio-executor via its cfg(loom), fd.rs and asyncify.rs via include! with std/flume/synchrony re-bound to loom-backed shims; each scenario in a sub-process"},
             {"name": "e_c08", "path": "/verif/e_c08", "serves_properties": ["C08"], "kind_free_text": "differential operation-sequence explorer: OS reference vs compio on io_uring vs compio on polling (fusion driver, driver chosen at run time)"},
+            {"name": "e_c09", "path": "/verif/e_c09", "serves_properties": ["C09"], "kind_free_text": "explicit-state BFS with a virtual clock over the transplanted timer sources (build.rs copies them from /repo and re-binds std), plus real-time trace conformance on the real runtime"},
             {"name": "e2pure", "path": "/verif/e2pure", "serves_properties": ["C10", "C11", "C12", "C13"], "kind_free_text": "input-exhaustive / deviation-bounded explorer driving real compio-buf and compio-io code (stateless DFS with prefix replay, vcore::explore)"},
         ],
         "checks": checks,
